@@ -902,8 +902,8 @@ class Compiler:
                 self._emit(OpCode.RETURN_UNDEFINED)
 
         elif isinstance(node, ThrowStatement):
-            self._set_loc(node)  # Record location of throw statement
             self._compile_expression(node.argument)
+            self._set_loc(node)  # Record location of throw statement
             self._emit(OpCode.THROW)
 
         elif isinstance(node, TryStatement):
@@ -1409,6 +1409,9 @@ class Compiler:
 
     def _compile_expression(self, node: Node) -> None:
         """Compile an expression."""
+        # Names and literals know where they are: a runtime error is reported at
+        # the nearest one before it
+        self._set_loc(node)
         if isinstance(node, NumericLiteral):
             idx = self._add_constant(node.value)
             self._emit(OpCode.LOAD_CONST, idx)
